@@ -52,6 +52,8 @@ var fragPool = []string{
 	`<bpmn:businessRuleTask id="BRd%N"><bpmn:extensionElements><olive:calledDecision decisionId="%T" result="%T"/></bpmn:extensionElements></bpmn:businessRuleTask>`,
 	`<bpmn:serviceTask id="OLz%N"><bpmn:extensionElements><olive:taskDefinition type="" timeout="0s" retries="0" target="%T" metadata="{&quot;k&quot;:0}"/></bpmn:extensionElements></bpmn:serviceTask>`,
 	`<bpmn:serviceTask id="OLn%N"><bpmn:extensionElements><olive:taskDefinition type="t" retries="-1"/></bpmn:extensionElements></bpmn:serviceTask>`,
+	// extension lists with completely blank rows between ordinary ones
+	`<bpmn:serviceTask id="OLb%N"><bpmn:extensionElements><olive:taskHeaders><olive:header name="a" value="1"/><olive:header/><olive:header name="b" value="%T"/></olive:taskHeaders><olive:properties><olive:property/><olive:property name="p" value="%T" type="string"/><olive:property name="q" value="2" type="integer"/></olive:properties><olive:results><olive:field name="r" type="integer"/><olive:field/><olive:field name="s" type="string"/></olive:results></bpmn:extensionElements></bpmn:serviceTask>`,
 	`<bpmn:subProcess id="SP%N" triggeredByEvent="false" name="%T"><bpmn:startEvent id="SPs%N"><bpmn:outgoing>SPf%N</bpmn:outgoing></bpmn:startEvent><bpmn:endEvent id="SPe%N"><bpmn:incoming>SPf%N</bpmn:incoming></bpmn:endEvent><bpmn:sequenceFlow id="SPf%N" sourceRef="SPs%N" targetRef="SPe%N"/></bpmn:subProcess>`,
 	`<bpmn:subProcess id="ESP%N" triggeredByEvent="true"><bpmn:startEvent id="ESPs%N" isInterrupting="false"><bpmn:signalEventDefinition id="ESPd%N" signalRef="Sig_R"/></bpmn:startEvent></bpmn:subProcess>`,
 	`<bpmn:exclusiveGateway id="XG%N" name="%T" gatewayDirection="Diverging"/>`,
